@@ -584,27 +584,95 @@ theorem wildcard_binds (cache : Path → Option Entry) (k : Name) (w : List V) (
 wildcard imports (added at the end unless the same map is already there) -/
 theorem wildcard_import_adds {cfg : Cfg} {fs : FS} {rec : Runner} (m : Ref) {fr fr' : Frame} {s s' : St}
     (h : execAct cfg fs rec (.fromAll m) fr s = some (none, fr', s')) :
-    ∃ mv, mv ∈ fr'.wild ∧ (mv ∉ fr.wild → fr'.wild = fr.wild ++ [mv]) := by
-  have hw : ∀ mv : V, mv ∈ (addWild mv fr).wild ∧ (mv ∉ fr.wild → (addWild mv fr).wild = fr.wild ++ [mv]) := by
+    ∃ mv, mv ∈ fr'.wild ∧ (mv ∉ fr.wild → fr'.wild = fr.wild ++ [mv])
+      ∧ ∀ w ∈ fr'.wild, w ∈ fr.wild ∨ w = mv := by
+  have hw : ∀ mv : V, mv ∈ (addWild cfg.wildRefresh mv fr).wild
+      ∧ (mv ∉ fr.wild → (addWild cfg.wildRefresh mv fr).wild = fr.wild ++ [mv])
+      ∧ ∀ w ∈ (addWild cfg.wildRefresh mv fr).wild, w ∈ fr.wild ∨ w = mv := by
     intro mv
     unfold addWild
     by_cases hc : fr.wild.contains mv = true
-    · simp only [hc, if_true]
-      have hmem : mv ∈ fr.wild := by simpa using hc
-      exact ⟨hmem, fun hn => absurd hmem hn⟩
+    · have hmem : mv ∈ fr.wild := by simpa using hc
+      simp only [hc, if_true]
+      split
+      · refine ⟨by simp, fun hn => absurd hmem hn, ?_⟩
+        intro w hw
+        simp only [List.mem_append, List.mem_singleton] at hw
+        rcases hw with hw | hw
+        · exact Or.inl (List.mem_of_mem_erase hw)
+        · exact Or.inr hw
+      · exact ⟨hmem, fun hn => absurd hmem hn, fun w hw => Or.inl hw⟩
     · simp only [hc]
-      exact ⟨by simp, fun _ => rfl⟩
+      refine ⟨by simp, fun _ => rfl, ?_⟩
+      intro w hw
+      simp only [Bool.false_eq_true, if_false, List.mem_append, List.mem_singleton] at hw
+      exact hw
   simp only [execAct] at h
   split at h
   · cases h
   · simp at h
   · split at h
     · simp at h
-    · rename_i mv _ _ _ _
-      simp only [Option.some.injEq, Prod.mk.injEq, true_and] at h
+    · simp only [Option.some.injEq, Prod.mk.injEq, true_and] at h
       rw [← h.1]; exact ⟨_, hw _⟩
     · simp only [Option.some.injEq, Prod.mk.injEq, true_and] at h
       rw [← h.1]; exact ⟨_, hw _⟩
+
+/-- a wildcard import over a nested from-path `from a.b import *` wildcard-imports the value reached at
+the END of the path and nothing else: the frame's wildcard list grows by at most that one value — the
+root `a` (and any intermediate level) is not added -/
+theorem nested_wildcard_only_leaf {cfg : Cfg} {fs : FS} {rec : Runner} (m : Ref) {fr fr' : Frame} {s s' : St}
+    (hsub : m.sub ≠ [])
+    (h : execAct cfg fs rec (.fromAll m) fr s = some (none, fr', s')) :
+    ∃ root s1 leaf, rootValue cfg fs rec fr m s = some (.ok root, s1)
+      ∧ accessPath s1.cache root m.sub = .ok leaf
+      ∧ ∀ w ∈ fr'.wild, w ∈ fr.wild ∨ w = leaf := by
+  have hne : m.sub.isEmpty = false := by cases hm : m.sub with
+    | nil => exact absurd hm hsub
+    | cons _ _ => rfl
+  simp only [execAct, wildRoot, hne, Bool.false_eq_true, if_false, importRoot] at h
+  cases hr : rootValue cfg fs rec fr m s with
+  | none => rw [hr] at h; simp at h
+  | some res =>
+    obtain ⟨r1, s1⟩ := res
+    rw [hr] at h
+    cases r1 with
+    | error e => simp at h
+    | ok root =>
+      dsimp only at h
+      cases ha : accessPath s1.cache root m.sub with
+      | error e => rw [ha] at h; simp at h
+      | ok leaf =>
+        rw [ha] at h
+        dsimp only at h
+        refine ⟨root, s1, leaf, rfl, ha, ?_⟩
+        cases hv : importValue leaf with
+        | error e => rw [hv] at h; simp at h
+        | ok mv =>
+          have hmv : mv = leaf := by
+            cases leaf <;> simp [importValue] at hv <;> exact hv.symm
+          rw [hv] at h
+          dsimp only at h
+          have hsubset : ∀ w ∈ (addWild cfg.wildRefresh mv fr).wild, w ∈ fr.wild ∨ w = mv := by
+            intro w hw
+            unfold addWild at hw
+            by_cases hc : fr.wild.contains mv = true
+            · simp only [hc, if_true] at hw
+              split at hw
+              · simp only [List.mem_append, List.mem_singleton] at hw
+                rcases hw with hw | hw
+                · exact Or.inl (List.mem_of_mem_erase hw)
+                · exact Or.inr hw
+              · exact Or.inl hw
+            · simp only [hc, Bool.false_eq_true, if_false, List.mem_append, List.mem_singleton] at hw
+              exact hw
+          rw [← hmv]
+          split at h
+          · simp at h
+          · simp only [Option.some.injEq, Prod.mk.injEq, true_and] at h
+            rw [← h.1]; exact hsubset
+          · simp only [Option.some.injEq, Prod.mk.injEq, true_and] at h
+            rw [← h.1]; exact hsubset
 
 -- `from m2 import k60 as k62, k61` then `from m1 import *`: k62 = 7, k61 = 9, and k60 resolves
 -- through the wildcard import of m1 (5)
